@@ -7,6 +7,7 @@ import (
 	"fmt"
 	"os"
 	"path/filepath"
+	"sort"
 	"strings"
 	"testing"
 
@@ -23,7 +24,8 @@ func c13MPCase(out *zzverif.Out, root, s string) {
 		ph = zzverif.Hex([]byte(p))
 	}
 	h := func(x string) string { return zzverif.Hex([]byte(x)) }
-	out.Case(op, fmt.Sprintf("f=%s,%s,%s,%s,%s path=%s", h(mp.ProtocolScheme), h(mp.Registry), h(mp.Namespace), h(mp.Repository), h(mp.Tag), ph))
+	out.Case(op, fmt.Sprintf("f=%s,%s,%s,%s,%s path=%s full=%s short=%s nsrepo=%s", h(mp.ProtocolScheme), h(mp.Registry), h(mp.Namespace), h(mp.Repository), h(mp.Tag), ph,
+		h(mp.GetFullTagname()), h(mp.GetShortTagname()), h(mp.GetNamespaceRepository())))
 	out.Count("cases")
 	if err != nil {
 		out.Count("mp_rejected")
@@ -48,18 +50,88 @@ func c13MPCase(out *zzverif.Out, root, s string) {
 	if back.Registry != mp.Registry || back.Namespace != mp.Namespace || back.Repository != mp.Repository || back.Tag != mp.Tag {
 		out.L2("roundtrip-modelpath", op, "ParseModelPath(String()) differs")
 	}
+	// both printers of the legacy ModelPath are read back unchanged by both parsers (same parts, same manifest path)
+	for which, printed := range map[string]string{"full": mp.GetFullTagname(), "short": mp.GetShortTagname()} {
+		b := ParseModelPath(printed)
+		if b.Registry != mp.Registry || b.Namespace != mp.Namespace || b.Repository != mp.Repository || b.Tag != mp.Tag || b.ProtocolScheme != DefaultProtocolScheme {
+			out.L2("roundtrip-modelpath", op, "ParseModelPath("+which+" tag name) differs: "+zzverif.C13Fields(b.Registry, b.Namespace, b.Repository, b.Tag))
+		}
+		if bp, err := b.GetManifestPath(); err != nil || bp != p {
+			out.L2("roundtrip-modelpath", op, "manifest path of the "+which+" tag name differs: "+bp)
+		}
+		m := model.ParseName(printed)
+		if !m.IsValid() || m.Host != mp.Registry || m.Namespace != mp.Namespace || m.Model != mp.Repository || m.Tag != mp.Tag {
+			out.L2("cross-modelpath-to-model", op, "model.ParseName("+which+" tag name) = "+zzverif.C13Fields(m.Host, m.Namespace, m.Model, m.Tag))
+		}
+	}
+	// on the ORIGINAL string: whenever types/model accepts it too, both parsers read the same four parts
+	if m := model.ParseName(s); m.IsValid() {
+		out.Count("mp_and_model_accept")
+		if m.Host != mp.Registry || m.Namespace != mp.Namespace || m.Model != mp.Repository || m.Tag != mp.Tag {
+			out.L2("cross-modelpath-to-model", op, "both accept the input but model.ParseName reads "+zzverif.C13Fields(m.Host, m.Namespace, m.Model, m.Tag))
+		}
+	} else {
+		out.Count("mp_accepts_model_rejects")
+	}
+}
+
+// c13Leaves lists the leaf directories below base (sorted), relative paths excluded: absolute paths.
+func c13Leaves(base string) []string {
+	var res []string
+	var rec func(d string)
+	rec = func(d string) {
+		ents, _ := os.ReadDir(d)
+		sub := 0
+		for _, e := range ents {
+			if e.IsDir() {
+				sub++
+				rec(filepath.Join(d, e.Name()))
+			}
+		}
+		if sub == 0 {
+			res = append(res, d)
+		}
+	}
+	rec(base)
+	return res
 }
 
 func c13BlobCase(out *zzverif.Out, root, s string) {
 	op := "blobs " + zzverif.Hex([]byte(root)) + " " + zzverif.Hex([]byte(s))
+	// the directory side effect: start from a store that does not exist, see which directories the call leaves behind
+	os.RemoveAll(root)
 	p, err := GetBlobsPath(s)
+	mk := "!"
+	var made []string
+	for _, d := range c13Leaves(c13Base) {
+		if d != filepath.Dir(root) {
+			made = append(made, d)
+		}
+	}
+	if len(made) > 0 {
+		mk = zzverif.Hex([]byte(strings.Join(made, ",")))
+	}
+	for _, d := range made {
+		if d != filepath.Join(root, "blobs") {
+			out.L2("blob-mkdir-escapes", op, "GetBlobsPath created the directory "+d)
+		}
+	}
+	if err != nil && len(made) > 0 {
+		out.L2("blob-mkdir-escapes", op, "a refused digest left a directory behind: "+strings.Join(made, ","))
+	}
+	// digest aliases: the sha256-<hex> and sha256:<hex> spellings (canonicalDigest) address the same blob file
+	can := canonicalDigest(s)
+	out.Case("canon "+zzverif.Hex([]byte(s)), zzverif.Hex([]byte(can)))
+	if cp, cerr := GetBlobsPath(can); (cerr == nil) != (err == nil) || cp != p {
+		out.L2("digest-alias-different-blob", op, fmt.Sprintf("canonicalDigest = %q addresses %q, the digest itself %q", can, cp, p))
+	}
 	out.Count("cases")
 	if err != nil {
-		out.Case(op, "err")
+		out.Case(op, "err mk="+mk)
 		out.Count("blobs_rejected")
 		return
 	}
-	out.Case(op, "ok "+zzverif.Hex([]byte(p)))
+	out.Case(op, "ok "+zzverif.Hex([]byte(p))+" mk="+mk)
 	if s == "" {
 		// documented overload: the empty digest names the blobs directory itself
 		out.Count("blobs_empty_digest")
@@ -145,10 +217,16 @@ func c13FoldFamily(f func(name string, parts [4]string, pos int)) {
 	}
 }
 
+var c13Base string
+
 func TestVerifC13(t *testing.T) {
 	out := zzverif.NewOut()
 	defer out.Close()
-	models := filepath.Join(t.TempDir(), "models dir")
+	// the models directory sits four levels below a directory of its own, so that a directory created outside it by
+	// up to four ".." is still seen by the walk of c13Base
+	c13Base = t.TempDir()
+	models := filepath.Join(c13Base, "l1", "l2", "l3", "models dir")
+	os.MkdirAll(filepath.Dir(models), 0o755)
 	t.Setenv("OLLAMA_MODELS", models)
 	if rp := os.Getenv("VERIF_REPLAY"); rp != "" {
 		b, _ := os.ReadFile(rp)
@@ -160,6 +238,14 @@ func TestVerifC13(t *testing.T) {
 			c13BlobCase(out, models, string(zzverif.Unhex(f[2])))
 		case len(f) == 2 && f[0] == "clean":
 			c13CleanCase(out, string(zzverif.Unhex(f[1])))
+		case len(f) == 2 && f[0] == "canon":
+			c13BlobCase(out, models, string(zzverif.Unhex(f[1])))
+		case len(f) >= 2 && f[0] == "enum":
+			var rels []string
+			for _, x := range f[2:] {
+				rels = append(rels, string(zzverif.Unhex(x)))
+			}
+			c13EnumCase(t, out, rels, nil)
 		}
 		return
 	}
@@ -211,4 +297,204 @@ func TestVerifC13(t *testing.T) {
 		}
 		c13CleanCase(out, p)
 	}
+	// enumeration of the store (server.Manifests) and CopyModel over directories with odd entries
+	eroot := zzverif.NewRng(zzverif.Seed() + 3500)
+	ne := n / 40
+	if ne < 40 {
+		ne = 40
+	}
+	for i := 0; i < ne; i++ {
+		r := eroot.Fork()
+		c13EnumCase(t, out, c13GenEnum(r), r)
+	}
+	t.Setenv("OLLAMA_MODELS", models)
+}
+
+var c13EnumComps = [4][]string{
+	{"registry.ollama.ai", "h", "H", "localhost:5000", "a.b", ".h", "h h", "é", "-h", "_", "..."},
+	{"library", "n", "N", "a.b", ".n", "n-1", "n:1", "_n", "\u212a"},
+	{"m", "M", "m.1", ".m", "m:1", "m@x", "_", "-m", "mistral", "\xff"},
+	{"latest", "t", "T", "1.0", ".t", "t:1", "t t", "_", strings.Repeat("t", 80), strings.Repeat("t", 81)},
+}
+
+// c13GenEnum draws the files of one models/manifests tree: mostly depth 4, some shallower / deeper.
+func c13GenEnum(r *zzverif.Rng) []string {
+	var rels []string
+	for k := r.Range(1, 9); k > 0; k-- {
+		var q []string
+		for lvl := 0; lvl < 4; lvl++ {
+			c := zzverif.Pick(r, c13EnumComps[lvl])
+			if r.Chance(2, 3) {
+				c = c13EnumComps[lvl][r.Intn(3)]
+			}
+			q = append(q, c)
+		}
+		switch r.Intn(10) {
+		case 0:
+			q = q[:3]
+		case 1:
+			q = append(q, "x")
+		}
+		rels = append(rels, strings.Join(q, "/"))
+	}
+	return rels
+}
+
+// c13WalkFiles lists the regular files exactly four levels below dir in fs.Glob order (each level sorted by name).
+func c13WalkFiles(dir string, depth int) []string {
+	var res []string
+	ents, _ := os.ReadDir(dir)
+	for _, e := range ents {
+		if depth == 1 {
+			if !e.IsDir() {
+				res = append(res, e.Name())
+			}
+		} else if e.IsDir() {
+			for _, sub := range c13WalkFiles(filepath.Join(dir, e.Name()), depth-1) {
+				res = append(res, e.Name()+"/"+sub)
+			}
+		}
+	}
+	return res
+}
+
+// c13EnumCase builds a manifests tree holding the files rels ("{}" each), runs the real server.Manifests over it and
+// ties what it loads to the model; then (r != nil) one CopyModel from a loaded name.
+func c13EnumCase(t *testing.T, out *zzverif.Out, rels []string, r *zzverif.Rng) {
+	base := t.TempDir()
+	models := filepath.Join(base, "store")
+	t.Setenv("OLLAMA_MODELS", models)
+	manifests := filepath.Join(models, "manifests")
+	for _, rel := range rels {
+		p := filepath.Join(manifests, rel)
+		if os.MkdirAll(filepath.Dir(p), 0o755) == nil {
+			os.WriteFile(p, []byte("{}"), 0o644)
+		}
+	}
+	if r != nil && r.Chance(1, 4) { // a DIRECTORY at depth 4 (skipped by Manifests)
+		os.MkdirAll(filepath.Join(manifests, "h/n/m/dir4"), 0o755)
+	}
+	files := c13WalkFiles(manifests, 4)
+	idx := map[string]int{}
+	var sb strings.Builder
+	fmt.Fprintf(&sb, "enum %d", len(files))
+	for i, f := range files {
+		idx[f] = i
+		sb.WriteString(" " + zzverif.Hex([]byte(f)))
+	}
+	op := sb.String()
+	out.Count("cases")
+	out.Count("enum_cases")
+	ms, err := Manifests(true)
+	if err != nil {
+		out.Case(op, "error "+err.Error())
+		return
+	}
+	type ent struct {
+		n   model.Name
+		rel string
+		pos int
+	}
+	var ents []ent
+	for n, m := range ms {
+		rel := strings.TrimPrefix(m.filepath, manifests+"/")
+		pos, ok := idx[rel]
+		if !ok {
+			pos = len(files)
+			out.L2("enum-opens-other-file", op, fmt.Sprintf("name %q was loaded from %q, which the walk of the store does not list", n.String(), m.filepath))
+		}
+		if rel != n.Host+"/"+n.Namespace+"/"+n.Model+"/"+n.Tag {
+			out.L2("enum-opens-other-file", op, fmt.Sprintf("name %q was loaded from %q", n.String(), rel))
+		}
+		if why := zzverif.C13Confined(models, "manifests", m.filepath, 4); why != "" {
+			out.L2("manifest-path-escapes", op, why+" path="+zzverif.Hex([]byte(m.filepath)))
+		}
+		ents = append(ents, ent{n, rel, pos})
+	}
+	sort.Slice(ents, func(a, b int) bool {
+		if ents[a].pos != ents[b].pos {
+			return ents[a].pos < ents[b].pos
+		}
+		return ents[a].rel < ents[b].rel
+	})
+	var shown []string
+	for _, e := range ents {
+		shown = append(shown, zzverif.C13Fields(e.n.Host, e.n.Namespace, e.n.Model, e.n.Tag)+"="+zzverif.Hex([]byte(e.rel)))
+	}
+	out.Add("enum_files", len(files))
+	out.Add("enum_loaded", len(ents))
+	if len(shown) == 0 {
+		out.Case(op, "-")
+	} else {
+		out.Case(op, strings.Join(shown, ";"))
+	}
+	// every file whose path spells a valid name is loaded (no manifest of the store is invisible)
+	for _, f := range files {
+		if n := model.ParseNameFromFilepath(f); n.IsValid() {
+			if _, ok := ms[n]; !ok {
+				out.L2("enum-misses-manifest", op, "the file "+f+" spells a valid name and was not loaded")
+			}
+		} else {
+			out.Count("enum_skipped_invalid")
+		}
+	}
+	if r == nil || len(ents) == 0 {
+		return
+	}
+	// CopyModel from a loaded name to a drawn destination: the only file that may appear is manifests/<dst.Filepath()>
+	src := ents[r.Intn(len(ents))].n
+	_, ds := zzverif.C13Name(r)
+	if r.Chance(1, 2) {
+		q := strings.Split(c13GenEnum(r)[0], "/")
+		for len(q) < 4 {
+			q = append(q, "t")
+		}
+		ds = q[0] + "/" + q[1] + "/" + q[2] + ":" + q[3]
+	}
+	dst := model.ParseName(ds)
+	before := map[string]bool{}
+	for _, f := range c13AllFiles(models) {
+		before[f] = true
+	}
+	cerr := CopyModel(src, dst)
+	out.Count("copy_cases")
+	var fresh []string
+	for _, f := range c13AllFiles(models) {
+		if !before[f] {
+			fresh = append(fresh, f)
+		}
+	}
+	cop := "mname " + zzverif.Hex([]byte(ds))
+	if cerr != nil {
+		out.Count("copy_refused")
+		if len(fresh) > 0 {
+			out.L2("copy-escapes", cop, "a refused CopyModel created "+strings.Join(fresh, ","))
+		}
+		return
+	}
+	out.Count("copy_done")
+	want := filepath.Join(manifests, dst.Host, dst.Namespace, dst.Model, dst.Tag)
+	for _, f := range fresh {
+		if f != want && !strings.HasPrefix(want, f+"/") && f != filepath.Join(models, "blobs") {
+			out.L2("copy-escapes", cop, "CopyModel created "+f+", want only "+want)
+		}
+	}
+	if why := zzverif.C13Confined(models, "manifests", want, 4); why != "" {
+		out.L2("copy-escapes", cop, why+" path="+want)
+	}
+	if _, err := os.Stat(want); err != nil {
+		out.L2("copy-escapes", cop, "CopyModel succeeded but "+want+" does not exist")
+	}
+}
+
+// c13AllFiles lists every file and directory below dir.
+func c13AllFiles(dir string) []string {
+	var res []string
+	filepath.Walk(dir, func(p string, info os.FileInfo, err error) error {
+		if err == nil {
+			res = append(res, p)
+		}
+		return nil
+	})
+	return res
 }
